@@ -192,6 +192,25 @@ pub fn append_stream(ctx: &mut Ctx) {
 		};
 		forged(ctx, n, &[7], m, 1);
 	}
+	// over-long big-integer prefixes padded with zero bytes (and other non-canonical forms): rejected,
+	// like `Compact<u32>::decode` rejects them
+	for input in [
+		vec![0x07u8, 0, 0, 0, 0x40, 0], vec![0x0b, 0, 0, 0, 0x40, 0, 0], vec![0x07, 1, 0, 0, 0x80, 0], vec![0x13, 0, 0, 0, 0x40, 0, 0, 0, 0],
+		vec![0x07, 0, 0, 0, 0x40, 1], vec![0x03, 0, 0, 0, 0x3f], vec![0x03, 5, 0, 0, 0], vec![0x01, 0x00], vec![0x02, 0, 0, 0], vec![0x07, 0, 0, 0, 0x40],
+		vec![0x33, 0, 0, 0, 0x40, 0, 0, 0, 0, 0, 0, 0, 0, 0, 0, 0, 0],
+	] {
+		for extra in [0usize, 2] {
+			let mut inp = input.clone();
+			inp.extend(std::iter::repeat(0u8).take(extra));
+			let r = catch_unwind(AssertUnwindSafe(|| <Vec<()> as EncodeAppend>::append_or_new(inp.clone(), vec![(), ()])));
+			let (ans, _) = answer(r);
+			ctx.emit("append-badprefix", "Vec<()>", &format!("appendn {} 2 -", hex_or_dash(&inp)), &ans);
+			let valid = <Compact<u32> as parity_scale_codec::Decode>::decode(&mut &inp[..]).is_ok();
+			if !valid && ans != "err" {
+				ctx.oracle_fail("C15", format!("append_or_new accepted input {} that does not begin with a valid count: {}", hex(&inp), ans));
+			}
+		}
+	}
 	// inputs that do not begin with a valid count
 	for _ in 0..rounds * 5 {
 		let len = 1 + rng.below(6) as usize;
